@@ -13,6 +13,9 @@
      piece of a decoded pointer: the model reports it (ReadClobbered).  Read cursor rd (index into
      encoded.vtbls), write cursor wr (= number of decoded words).  Every write is logged with the position of
      the read cursor at that moment.
+   The last statement of the real decoder, Policy::publish_vptrs over one record per distinct type id (fix 3362c80),
+   hands the static v-table pointers decoded here to the policy's vptr_vector / vptr_map exactly as update does; it
+   is the same publish_vptrs and is not modelled again here (the harness exercises it with real calls).
    No proofs here. *)
 From Y2 Require Import Model.Registry Model.Compile Gen.GenCodecConsts.
 Local Open Scope nat_scope.
